@@ -207,6 +207,24 @@ func c20(c *Ctx) {
 				ok = len(an.Guards(store)) == len(an.Guards(call))
 			}
 			oldArg := strings.HasSuffix(an.Path(call.Common().Args[0]), "."+want[name])
+			// ... of the PREVIOUS config (the copy of the cache), not of the config under construction
+			if store != nil {
+				_, _, newBase, _ := an.FieldOf(store.Addr)
+				fromCache := false
+				for x := range backwardAll(call.Common().Args[0]) {
+					if fa, isFA := x.(*ssa.FieldAddr); isFA {
+						if _, f0, base0, ok0 := an.FieldOf(fa); ok0 && f0 == want[name] && base0 == newBase {
+							oldArg = false
+						}
+					}
+					if strings.Contains(an.Path(x), "cfgCache.sloCfg") {
+						fromCache = true
+					}
+				}
+				if !fromCache {
+					oldArg = false
+				}
+			}
 			// the section is recomputed from the ConfigMap in every sync: the call is on every path to the cache update,
 			// and nothing else is ever stored into the section of the new config
 			if upd != nil && !mustPass(call, upd) {
